@@ -10,6 +10,8 @@ from parso.pgen2.generator import ReservedString
 
 
 def crash_sig(e):
+    if type(e).__name__ == 'CaseTimeout':
+        return 'does-not-terminate (%s)' % e
     tb = traceback.extract_tb(e.__traceback__)
     fr = [f for f in tb if '/parso/' in f.filename]
     if fr:
